@@ -598,7 +598,7 @@ func checkLexPartition(p *Prog, l *Ledger) {
 			}
 			tn, f := structKey(fa.X.Type(), fa.Field)
 			if tn == "lexer.Scanner" {
-				writers[f] = append(writers[f], p.FuncKey(fn)+":"+describe(st.Val))
+				writers[f] = append(writers[f], p.FuncKey(fn)+":"+strings.ReplaceAll(recvFieldExpr(fn, st.Val), "$.", "s."))
 			}
 		})
 	}
@@ -744,7 +744,6 @@ func checkScanTokensLoop(p *Prog, l *Ledger) {
 }
 
 var _ = types.Typ
-
 
 // checkExtents (S7): where the three multi-rune skipping/collecting loops stop.  "separated only by blanks, //
 // comments and /* */ comments" and "a string token's value is the text between its quotes" fix the extent of each
